@@ -514,6 +514,11 @@ Fixpoint rd_items_var (vals : list Z) (enc : Z) (mk : Z -> R Z) (add : list Z ->
       end
   end.
 
+(* the `valence_ok` lambda of read_faces / read_cells: the fixed valence, or every listed valence, is the required one *)
+Definition valence_ok (valence : Z) (vals : option (list Z)) (required : Z) : bool :=
+  if negb (valence =? 0) then valence =? required
+  else match vals with Some vs => forallb (fun v => v =? required) vs | None => true end.
+
 (* BinaryFileReader::read_topo_chunk + read_edges / read_faces / read_cells *)
 Definition read_topo_chunk (o : opts) (h : fhdr) (st : rst) (d : dec) : R (rst * dec) :=
   do _ <- need ovmb_size_TopoChunkHeader d;
@@ -543,8 +548,8 @@ Definition read_topo_chunk (o : opts) (h : fhdr) (st : rst) (d : dec) : R (rst *
            Ret (add_edges count es st, d8)
     else if entity =? TopoEntity_Face then
       do _ <- validate_span (h_nf h) (r_nfr st) first count;
-      if (h_topo h =? TopoType_Tetrahedral) && negb (valence =? 3) then state_error S_ErrorInvalidTopoType
-      else if (h_topo h =? TopoType_Hexahedral) && negb (valence =? 4) then state_error S_ErrorInvalidTopoType
+      if (h_topo h =? TopoType_Tetrahedral) && negb (valence_ok valence vals 3) then state_error S_ErrorInvalidTopoType
+      else if (h_topo h =? TopoType_Hexahedral) && negb (valence_ok valence vals 4) then state_error S_ErrorInvalidTopoType
       else
         let mk := mk_handle off (2 * r_ner st) in
         let add := fun hs (_ : list (list Z)) => mesh_add_face o (r_edges st) hs in
@@ -556,8 +561,8 @@ Definition read_topo_chunk (o : opts) (h : fhdr) (st : rst) (d : dec) : R (rst *
         Ret (add_faces count fs st, d8)
     else
       do _ <- validate_span (h_nc h) (r_ncr st) first count;
-      if (h_topo h =? TopoType_Tetrahedral) && negb (valence =? 4) then state_error S_ErrorInvalidTopoType
-      else if (h_topo h =? TopoType_Hexahedral) && negb (valence =? 6) then state_error S_ErrorInvalidTopoType
+      if (h_topo h =? TopoType_Tetrahedral) && negb (valence_ok valence vals 4) then state_error S_ErrorInvalidTopoType
+      else if (h_topo h =? TopoType_Hexahedral) && negb (valence_ok valence vals 6) then state_error S_ErrorInvalidTopoType
       else
         let mk := mk_handle off (2 * r_nfr st) in
         let add := fun hs (_ : list (list Z)) => mesh_add_cell o (r_faces st) hs in
@@ -711,6 +716,7 @@ Definition read_prop_chunk (h : fhdr) (st : rst) (d : dec) : R (rst * dec) :=
 (* BinaryFileReader::read_chunk *)
 (* `eof` is reached_eof_chunk *)
 Definition read_chunk (o : opts) (h : fhdr) (st : rst) (eof : bool) (s : stream) : R (rst * bool * stream) :=
+  if eof then state_error S_Error else                              (* "Data after the EOF chunk" *)
   do x <- make_decoder ovmb_size_ChunkHeader s; let (d, s1) := x in
   do _ <- need ovmb_size_ChunkHeader d;
   do y1 <- rd_u32 d; let (ty, d1) := y1 in                         (* is_valid(ChunkType) is always true *)
@@ -722,7 +728,8 @@ Definition read_chunk (o : opts) (h : fhdr) (st : rst) (eof : bool) (s : stream)
   if file_length <? padding then parse_error
   else
     let payload_length := file_length - padding in
-    if remaining_bytes s1 <? file_length then state_error S_ErrorChunkTooBig
+    if negb (compression =? 0) then state_error S_ErrorUnsupportedChunkVersion
+    else if remaining_bytes s1 <? file_length then state_error S_ErrorChunkTooBig
     else
       do z <- make_decoder payload_length s1; let (cd, s2) := z in
       let mandatory := Z.land flags ChunkFlags_Mandatory =? ChunkFlags_Mandatory in
@@ -793,7 +800,7 @@ Definition decode_stream (o : opts) (s : stream) : outcome :=
     | Ub w => RUB w
     | Ret (st, eof) =>
         if negb eof then RErr RR_InvalidFile S_ErrorEndNotReached
-        else if negb (h_ne h =? len (r_edges st)) || negb (h_nf h =? len (r_faces st)) || negb (h_nc h =? len (r_cells st))
+        else if negb (h_nv h =? r_nvr st) || negb (h_ne h =? len (r_edges st)) || negb (h_nf h =? len (r_faces st)) || negb (h_nc h =? len (r_cells st))
         then RErr RR_InvalidFile S_ErrorMissingData
         else ROk (result_mesh o h st)
     end.
